@@ -443,10 +443,11 @@ func init() {
 					c.Case(0, true, map[bool]string{true: "ascii", false: "non-ascii"}[ok])
 				}})
 			// message constructors
-			streams := []int{-1, 0, 1, 127, 128, 255, 256}
-			funcs := []int{-1, 0, 1, 2, 255, 256, 257}
-			wbits := []int{-1, 0, 1, 2, 3}
-			sessions := []int{-2, -1, 0, 1, 65535, 65536}
+			// beside the boundaries: values whose low 8/16/32 bits are in range (a narrowed field would accept them)
+			streams := []int{-1, 0, 1, 127, 128, 255, 256, 257, -255, 1<<32 + 1, math.MinInt64}
+			funcs := []int{-1, 0, 1, 2, 255, 256, 257, 513, 1<<32 + 1, math.MinInt64}
+			wbits := []int{-1, 0, 1, 2, 3, 256, 257, 1 << 32, 1<<32 + 1}
+			sessions := []int{-2, -1, 0, 1, 65535, 65536, 65541, 1 << 31, 1<<32 - 1, 1 << 32, 1<<32 + 5, 3<<32 + 300, math.MaxInt64, math.MinInt64, -1 << 32, -1<<32 - 1}
 			dirs := []string{"H->E", "H<-E", "H<->E", "", "h->e", "E->H", "H<>E"}
 			sp = append(sp, h.Space{Name: "message-constructor-arguments", Count: product(len(streams), len(funcs), len(wbits), len(sessions), len(dirs), 3),
 				Describe: func(i uint64) interface{} {
